@@ -380,6 +380,48 @@ def run_plateau(pe, acc, case):
                         acc.fail('plateau:prange-stored-unusable', sub, 'stored range %s (T=%d, %s): %s' % (pr, T, route, bad))
                     else:
                         acc.ok(('prg', T, tuple(pr), route), True, 'plateau-prange')
+        # the stored range is the correlator's own: the caller's list and the ranges of derived correlators can be changed without effect
+        if all(pattern) and T >= 4:
+            for route in ('constructor', 'set_prange'):
+                mine = [1, T - 2]
+                if route == 'constructor':
+                    C5 = pe.Corr([x[0] for x in C.content], prange=mine)
+                else:
+                    C5 = pe.Corr([x[0] for x in C.content])
+                    C5.set_prange(mine)
+                C5.gamma_method()
+                ref_pl = C5.plateau(method='avg')
+                derived = [2.0 * C5, C5 + 1.0, -C5, abs(C5), C5 / 2]
+                mine[0] = 0                   # the caller re-uses its list
+                for dcorr in derived:            # ... and changes the ranges of derived correlators in place
+                    if dcorr.prange is not None:
+                        dcorr.prange[1] = T - 1
+                bad = None
+                if list(C5.prange) != [1, T - 2]:
+                    bad = 'the stored range became %s after the caller changed its own list / the range of a derived correlator' % (list(C5.prange),)
+                else:
+                    bad = same_entry(C5.plateau(method='avg'), ref_pl, pe, 1e-14)
+                # a refused set_prange leaves the stored range as it was
+                if not bad:
+                    for refused in ([1, T + 3], [T, T + 1], [2, 1], [1, 2, 3], [-2, 1], [1.5, 2]):
+                        try:
+                            C5.set_prange(list(refused))
+                            continue            # (accepted requests are examined by the range probes above)
+                        except Exception:
+                            pass
+                        if C5.prange is None or list(C5.prange) != [1, T - 2]:
+                            bad = 'after the refused request set_prange(%s) the stored range is %s instead of [1, %d]' % (refused, C5.prange, T - 2)
+                            break
+                        try:
+                            bad = same_entry(C5.plateau(method='avg'), ref_pl, pe, 1e-14)
+                        except Exception as e:
+                            bad = 'after the refused request set_prange(%s), plateau() raises %s: %s' % (refused, type(e).__name__, e)
+                        if bad:
+                            break
+                if bad:
+                    acc.fail('plateau:prange-shared', dict(case, pattern=list(pattern), route=route), 'range stored through %s: %s' % (route, bad))
+                else:
+                    acc.ok(('prs', T, route), True, 'plateau-prange')
         # stored plateau range: used when no range is passed, overridden by an explicit one (constructor and set_prange)
         if all(pattern) and T >= 4:
             for route in ('constructor', 'set_prange'):
